@@ -414,6 +414,9 @@ def reject_probes(rec):
     for val in (h.Signal(), h.Input(), h.Instance(of=lib()["E"]()), 5):
         must_raise(f"Module.name = {type(val).__name__}", lambda v=val: setattr(h.Module(name="P"), "name", v), "reserved-name-accepted:setattr")
         must_raise(f"Bundle.name = {type(val).__name__}", lambda v=val: setattr(h.Bundle(name="P"), "name", v), "reserved-name-accepted:setattr")
+    for val in (5, h.Signal(), ["x"]):
+        must_raise(f"Bundle(name={type(val).__name__})", lambda v=val: h.Bundle(name=v), "reserved-name-accepted:setattr")
+        must_raise(f"Module(name={type(val).__name__})", lambda v=val: h.Module(name=v), "reserved-name-accepted:setattr")
     must_raise("class body `name = h.Port()` (module)", lambda: h.module(type("CbName", (), {"name": h.Port()})), "reserved-name-accepted:class")
     must_raise("class body `name = h.Signal()` (bundle)", lambda: h.bundle(type("CbName", (), {"name": h.Signal()})), "reserved-name-accepted:class")
 
